@@ -187,6 +187,10 @@ def stateful_flows(rng, tier):
              [h1, c1], [c1, h1], [b"SSH-2.0-a\r\n", b"SSH-2.0-b\r\n"], [gens.stun_req(magic=True, attrs=gens.stun_attr(0x8022, b"x" * 252)),
                                                                          gens.stun_req(mtype=0x0101)],
              [SMB1_NEG, SMB1_NEG], [SMB2_NEG, SMB2_NEG, SMB2_NEG]]
+    for banner in (b"SSH-2.0-probe\r\n", b"SSH-1.99-a b\r\r\n", b"Gh0st\x00\x00\x00"):
+        for c in range(1, len(banner)):
+            flows.append([banner[:c], banner[c:]])
+    flows += [[b"SSH-2.0-probe\r", b"x\r\n"], [b"SSH-2.0-probe\r", b"\n"], [b"SSH-2.0-p\r", b"\r", b"\n"]]
     fr = []
     for i, segs in enumerate(flows):
         fr += gens.handshake(key, gens.PEER4, gens.SELF4, 30000 + i, 111, segs)
@@ -206,7 +210,9 @@ def other_streams(tier, rng):
             scripts = list(m.corpus()) + list(m.generate("quick", random.Random(rng.random())))
         except Exception:
             continue
-        for s in scripts[: (6 if tier == "quick" else 60)]:
+        k = 10 if tier == "quick" else 60
+        step = max(1, len(scripts) // k)
+        for s in scripts[::step][:k]:         # spread over the whole stream, not its first scripts
             out.append((name + ":" + s.tag, s))
     return out
 
